@@ -1,3 +1,5 @@
+//go:build go1.23
+
 // Package c13sig is the shared generator and reference model of property C13
 // (supporting signatures). It only uses exported keep-core API, so the three
 // protocol packages (beacon dkg/result, tecdsa/dkg, protocol/inactivity) can
